@@ -364,6 +364,7 @@ def sym(name, *labels):
 # interpolation is linear in its table values (third argument)
 LINEAR_FNS = {'interp': 2, 'lininterp': 2, 'rev': 1}
 REV_AS_GATHER = True
+SORTED_SYMS = set()       # names of input arrays a set-up declares to be in increasing order (e.g. the result of np.unique)
 ELEMENTWISE = {'spectral'}        # element-wise functions with no further algebra: distribute over bracket selections, commute with rev   # name -> position of the argument they are linear in
 
 
@@ -532,6 +533,8 @@ def mk_fn(name, *args):
         inner = Poly.from_key(args[1][2])
         if inner.is_monomial():
             (m, c), = inner.t.items()
+            if c == 1 and len(m) == 1 and m[0][1] == 1 and m[0][0][0] == 'sym' and m[0][0][1] in SORTED_SYMS and m[0][0][2] == (args[0][1],):
+                return Poly.atom(('fn', 'arange', args[0]))          # an input declared to be in increasing order: sorting it is the identity
             if c == 1 and len(m) == 1 and m[0][1] == 1 and m[0][0][0] == 'fn' and m[0][0][1] == 'at' and len(m[0][0]) == 4 and m[0][0][2][0] == 'B' and m[0][0][2][1] == args[0][1] \
                     and m[0][0][3][0] == 'P':
                 # x gathered by its own argsort is sorted: sorting it again is the identity permutation
@@ -1261,4 +1264,78 @@ def all_labels(p):
                     elif x[0] == 'L':
                         out.add(x[1])
     walk(p)
+    return out
+
+
+def _map_label(l, m):
+    """a label under a renaming of base labels: 'pos#2' -> m['pos#2'];  slices 'pos#2[::2]' and shifted copies keep their decoration"""
+    if not isinstance(l, str):
+        return l
+    base = l.split('[')[0]
+    core = base.rstrip("'~")
+    if core in m:
+        return m[core] + l[len(core):]
+    return l
+
+
+def rename_labels(p, m):
+    """``p`` with axis labels renamed everywhere (free and bound occurrences, running-index symbols, decorated copies of a label)"""
+    def atom(a):
+        k = a[0]
+        if k == 'sym':
+            name = a[1]
+            if name.startswith('idx:'):
+                name = 'idx:' + _map_label(name[4:], m)
+            return Poly.atom(('sym', name, tuple(_map_label(x, m) for x in a[2])))
+        if k == 'sum':
+            return sum_over(go(Poly.from_key(a[2])), _map_label(a[1], m))
+        if k == 'pow':
+            return go(Poly.from_key(a[1])).pow(a[2])
+        if k == 'ind':
+            return mk_ind(a[1], go(Poly.from_key(a[2])))
+        if k == 'fn':
+            args = []
+            for x in a[2:]:
+                if x[0] == 'P':
+                    args.append(P(go(Poly.from_key(x[1]))))
+                elif x[0] == 'B':
+                    args.append(B(_map_label(x[1], m), go(Poly.from_key(x[2]))))
+                elif x[0] == 'L':
+                    args.append(L(_map_label(x[1], m)))
+                else:
+                    args.append(x)
+            return mk_fn(a[1], *args)
+        return Poly.atom(a)
+
+    def go(q):
+        out = Poly()
+        for mono, c in q.t.items():
+            term = Poly.const(c)
+            for a, e in mono:
+                term = term * atom(a).pow(e)
+            out = out + term
+        return out
+    return go(p)
+
+
+def poly_labels_deep(p, out=None):
+    """every axis label occurring in ``p``, bound ones included"""
+    out = set() if out is None else out
+    for mono in p.t:
+        for a, _ in mono:
+            k = a[0]
+            if k == 'sym':
+                out.update(x for x in a[2] if x)
+            elif k == 'sum':
+                out.add(a[1]); poly_labels_deep(Poly.from_key(a[2]), out)
+            elif k in ('pow', 'ind'):
+                poly_labels_deep(Poly.from_key(a[1] if k == 'pow' else a[2]), out)
+            elif k == 'fn':
+                for x in a[2:]:
+                    if x[0] == 'P':
+                        poly_labels_deep(Poly.from_key(x[1]), out)
+                    elif x[0] == 'B':
+                        out.add(x[1]); poly_labels_deep(Poly.from_key(x[2]), out)
+                    elif x[0] == 'L':
+                        out.add(x[1])
     return out
